@@ -4,6 +4,7 @@
 //!   bytes-worker …       C27: executes decoders on corrupt input (allocation cap, CPU budget, panics reported)
 //!   crash-victim <job>   one engine run over the directories of an E-rpki world (see rv::crash);
 //!                        killed at a numbered kill point through ROUTINATOR_VERIF_KILL_AT.
+//!   rrdp-update <dir> <notify uri> <proxy port>   C24: one RRDP client update against the parent's HTTPS server
 #[global_allocator]
 static ALLOC: rv::bw::TrackAlloc = rv::bw::TrackAlloc;
 
@@ -13,6 +14,7 @@ fn main() {
         Some("routinator") => std::process::exit(rv::fmtx::child_routinator(&args[2..])),
         Some("bytes-worker") => rv::c27::child_main(&args[2..]),
         Some("crash-victim") => std::process::exit(rv::crash::victim_main(&args[2..])),
+        Some("rrdp-update") => std::process::exit(rv::c24::child_rrdp_update(&args[2..])),
         _ => {
             eprintln!("usage: rvchild <role> [args…]");
             std::process::exit(2);
